@@ -9,9 +9,14 @@ first IEND; everything after IEND is never looked at), `get_cai_data`, `PngIO::w
 and `file_end + 12` when there is none) and `get_box_map` (stops at IEND: bytes after
 IEND are in no box).
 
-Approximation: a chunk name containing a byte ≥ 0x80 is treated as "not UTF-8" (the code
-uses `String::from_utf8`, which also accepts well-formed multi-byte sequences; the
-generator never produces those).
+The chunk name check is `String::from_utf8` (Rust std): `utf8Dec` below accepts exactly the
+well-formed UTF-8 sequences (no overlong forms, no surrogates, nothing above U+10FFFF) and
+yields the decoded characters, which are the box name of `get_box_map`.
+
+The lexer `segs`, `fmt` (wrap / unwrap / insertion position) at the end of the file are the
+*specification-side* view of a PNG file as a layer-A container; they are not compared with
+the implementation but related to the byte-exact functions by the refinement theorems of
+`Lemmas/C07PngOps.lean` (`Png.segs_write`, `Png.segs_remove`, `Png.read_segs`, …).
 -/
 namespace C2pa.C07.Png
 
@@ -31,6 +36,49 @@ structure Chunk where
 
 def Chunk.fin (c : Chunk) : Nat := c.start + c.length + 12
 
+/-- UTF-8 continuation byte. -/
+def cont (x : UInt8) : Bool := 0x80 ≤ x && x ≤ 0xBF
+
+/-- `String::from_utf8` on a byte list: the decoded characters, `none` when the bytes are not
+well-formed UTF-8 (Unicode 15 table 3-7, the acceptance set of Rust's `core::str::from_utf8`). -/
+def utf8Dec : Bytes → Option (List Char)
+  | [] => some []
+  | a :: rest =>
+    if a < 0x80 then (utf8Dec rest).map (Char.ofNat a.toNat :: ·)
+    else match rest with
+      | [] => none
+      | b :: rest2 =>
+        if 0xC2 ≤ a && a ≤ 0xDF then
+          if cont b then (utf8Dec rest2).map (Char.ofNat (a.toNat % 32 * 64 + b.toNat % 64) :: ·)
+          else none
+        else match rest2 with
+          | [] => none
+          | c :: rest3 =>
+            if 0xE0 ≤ a && a ≤ 0xEF then
+              if (if a == 0xE0 then 0xA0 ≤ b && b ≤ 0xBF
+                  else if a == 0xED then 0x80 ≤ b && b ≤ 0x9F else cont b) && cont c then
+                (utf8Dec rest3).map
+                  (Char.ofNat (a.toNat % 16 * 4096 + b.toNat % 64 * 64 + c.toNat % 64) :: ·)
+              else none
+            else match rest3 with
+              | [] => none
+              | d :: rest4 =>
+                if 0xF0 ≤ a && a ≤ 0xF4 then
+                  if (if a == 0xF0 then 0x90 ≤ b && b ≤ 0xBF
+                      else if a == 0xF4 then 0x80 ≤ b && b ≤ 0x8F else cont b)
+                      && cont c && cont d then
+                    (utf8Dec rest4).map
+                      (Char.ofNat (a.toNat % 8 * 262144 + b.toNat % 64 * 4096
+                        + c.toNat % 64 * 64 + d.toNat % 64) :: ·)
+                  else none
+                else none
+
+/-- `String::from_utf8(name).is_ok()` -/
+def nameOk (name : Bytes) : Bool := (utf8Dec name).isSome
+
+/-- `name_str` of a chunk whose name passed `nameOk` (every chunk of a successful walk). -/
+def nameStr (name : Bytes) : String := String.ofList ((utf8Dec name).getD [])
+
 /-- The chunk loop of `get_png_chunk_positions` from position `pos`; `none` = error. -/
 def walk (b : Bytes) : Nat → Nat → Option (List Chunk)
   | 0, _ => none
@@ -40,7 +88,7 @@ def walk (b : Bytes) : Nat → Nat → Option (List Chunk)
       let len := rdBe32 b pos
       let name := slice b (pos + 4) 4
       if pos + 8 + len + 4 > b.length then none   -- crc read fails
-      else if name.any (fun x => x ≥ 128) then none -- "PNG bad chunk name"
+      else if !nameOk name then none              -- "PNG bad chunk name"
       else
         let c : Chunk := ⟨pos, len, name⟩
         if name == IEND then some [c]
@@ -116,37 +164,46 @@ def boxMap (b : Bytes) : Option (List Box) :=
     some (⟨"PNGh", 0, 8, false, false⟩ :: ps.flatMap fun c =>
       if c.name == caBX then [⟨"C2PA", c.start, c.length + 12, true, false⟩]
       else
-        let bm : Box := ⟨String.ofList (c.name.map fun x => Char.ofNat x.toNat), c.start, c.length + 12, false, false⟩
+        let bm : Box := ⟨nameStr c.name, c.start, c.length + 12, false, false⟩
         if !has && c.name == IHDR then [bm, ⟨"C2PA", c.fin, 0, true, true⟩] else [bm])
 
 /-- Same-size in-place patch as done by the sign-then-patch flow (`write_cai` with a
 store of the same length on the already embedded asset). PNG has no `AssetPatch`. -/
 def patch (b s : Bytes) : Option Bytes := write b s
 
-/-! ### lexer to layer A -/
+/-! ### lexer to layer A (specification side) -/
 
 def kindOf (name : Bytes) : Kind :=
   if name == caBX then .manifest else if name == iTXt then .xmp else .media
 
+/-- Tag of a chunk segment = the name `get_box_map` gives its box. -/
+def tagOf (name : Bytes) : String := if name == caBX then "C2PA" else nameStr name
+
 def chunkSeg (b : Bytes) (c : Chunk) : Seg :=
-  ⟨kindOf c.name, String.ofList (c.name.map fun x => Char.ofNat x.toNat), slice b c.start (c.length + 12)⟩
+  ⟨kindOf c.name, tagOf c.name, slice b c.start (c.length + 12)⟩
+
+/-- End of the last chunk (= end of IEND); 8 for an empty chunk list (never produced). -/
+def finOf (ps : List Chunk) : Nat := match ps.getLast? with | some c => c.fin | none => 8
 
 /-- Header, one segment per chunk up to IEND, and (when non-empty) the bytes after IEND. -/
 def segs (b : Bytes) : Option (List Seg) :=
   match chunks b with
   | none => none
   | some ps =>
-    let fin := match ps.getLast? with | some c => c.fin | none => 8
-    let tail := b.drop fin
+    let tail := b.drop (finOf ps)
     some (⟨.header, "PNGh", b.take 8⟩ :: ps.map (chunkSeg b)
       ++ (if tail.isEmpty then [] else [⟨.media, "trailing", tail⟩]))
 
+/-- The store is the chunk data: everything between the 8-byte chunk head and the CRC. -/
 def unwrap (w : Bytes) : Option Bytes :=
   if w.length < 12 then none else some (slice w 8 (w.length - 12))
 
-/-- Insertion index: right after the first IHDR segment of the stripped list. -/
+/-- A chunk segment named IHDR (decided on the raw bytes: chunk type at offset 4). -/
+def isIhdrSeg (s : Seg) : Bool := s.kind != .header && slice s.raw 4 4 == IHDR
+
+/-- Insertion index: right after the first IHDR chunk segment of the stripped list. -/
 def pos (c : List Seg) : Nat :=
-  match (strip c).findIdx? (·.tag == "IHDR") with
+  match (strip c).findIdx? isIhdrSeg with
   | some i => i + 1
   | none => 0
 
